@@ -113,6 +113,8 @@ def check_config(ctx, cfg):
                             p2.add_window(child); got = True
                         except ValueError:
                             got = False
+                        except Exception as e:      # an internal error (e.g. a failing assert) is neither acceptance nor refusal
+                            got = None; bad.append(("add_window raised", type(e).__name__, cn, later, p2name)); continue
                         if got != expect:
                             bad.append((first_is_empty, cn, later, p2name, "accepted" if got else "refused"))
                         own = sorted(tuple(i.path[-1]) for i in child.all_resources())
@@ -133,6 +135,8 @@ def check_config(ctx, cfg):
                     m.add_resource(R(), name=mk(s), size=1); ok = True
                 except ValueError:
                     ok = False
+                except Exception as e:
+                    bad.append(("add_resource raised", type(e).__name__, mk(f), mk(s))); continue
                 if ok == related(mk(f), mk(s)):
                     bad.append((mk(f), mk(s), ok))
                 if not ok and snapshot(m) != before:
@@ -173,6 +177,8 @@ def check_config(ctx, cfg):
                 got = False
                 if "namespace" not in str(e):
                     continue        # refused for another reason (out of space): not a naming fact
+            except Exception as e:
+                bad_hist.append(("add_resource raised", type(e).__name__, name, list(vis[id(target)]))); break
             log.append(("res", name, got))
             if got != expect:
                 bad_hist.append(("add_resource", name, list(vis[id(target)]), "accepted" if got else "refused"))
@@ -195,6 +201,8 @@ def check_config(ctx, cfg):
                 got = False
                 if "namespace" not in str(e):
                     continue
+            except Exception as e:
+                bad_hist.append(("add_window raised", type(e).__name__, name, queries, list(vis[id(target)]))); break
             log.append(("rewin", name, queries, got))
             if got != expect:
                 bad_hist.append(("add_window(shared window)", name, queries, list(vis[id(target)]), "accepted" if got else "refused"))
@@ -220,6 +228,8 @@ def check_config(ctx, cfg):
                 got = False
                 if "namespace" not in str(e):
                     continue
+            except Exception as e:
+                bad_hist.append(("add_window raised", type(e).__name__, name, queries, list(vis[id(target)]))); break
             log.append(("win", name, queries, got))
             if got != expect:
                 bad_hist.append(("add_window", name, queries, list(vis[id(target)]), "accepted" if got else "refused"))
